@@ -104,12 +104,14 @@ def report(prop, mod, tier, seed, obs, results, known, t0, write=True):
     lines = []
     replay_dir = os.path.join(VERIF, "replays", prop)
     viol_records = []
+    printed_kf = set()
     for r in results:
         name = r["obligation"]
         st = r["status"]
         stats = r.get("stats", {})
         for kf in r.get("known_findings", []):
-            if kf.get("still_fails"):
+            if kf.get("still_fails") and kf["id"] not in printed_kf:
+                printed_kf.add(kf["id"])
                 lines.append(f"KNOWN-FINDING: property={prop} {kf['id']} {kf['what']}")
         if st == "discharged":
             lines.append(f"OK {name} [{r['kind']}{'/' + r['bound'] if r.get('bound') else ''}] paths={stats.get('paths', '-')} queries={stats.get('queries', '-')} solver={stats.get('solver_s', 0):.2f}s")
